@@ -230,6 +230,13 @@ func (a *analysis) checkFunction(fi *fnInfo, out *[]finding) (nSites int) {
 		e.seed = s
 		e.seedCounters(s.call.Block())
 		e.stale = staleRoots(s.call)
+		if s.eofDist && s.errIdx == 1 {
+			for _, r := range ssau.Refs(s.call) {
+				if ex, ok := r.(*ssa.Extract); ok && ex.Index == 0 && len(ssau.Refs(ex)) > 0 {
+					e.nVal = ex
+				}
+			}
+		}
 		st := newState()
 		if s.kind == kBool {
 			st.vals[s.call] = avFalse
@@ -257,6 +264,25 @@ func (a *analysis) checkFunction(fi *fnInfo, out *[]finding) (nSites int) {
 			}
 			add("IO-2", s.key, pos, ob.Violation, msg, "exhausted outcome: "+exhaustedText(s),
 				"offending return: "+a.p.Pos(posOfReturn(br.ret)), "states explored: "+itoa(len(e.visited)))
+		}
+		if s.prim && s.eofDist && e.countless && e.streaming && !e.overflow {
+			// REC-WHOLE (beyond the design): what a count-less record stream returns after the read that came up short
+			switch {
+			case len(e.badReturns) > 0 && e.badUse != nil:
+				add("REC-WHOLE", s.key, pos, ob.Violation,
+					"after the read that came up short the buffer is used at "+a.p.Pos(ssau.PosOf(e.badUse))+" and no branch on the path proves that the bytes used lie within the n bytes the read delivered"+
+						" (a decode loop bounded in bytes — offset < n — instead of whole records — offset+size <= n — decodes the trailing partial record from stale/zero bytes), and the result is returned with a nil error",
+					"windows proven within the delivered bytes: "+itoa(e.windows))
+			case len(e.badReturns) > 0:
+				add("REC-WHOLE", s.key, pos, ob.Violation,
+					"after the read that came up short data that does not come out of a validated window of the delivered bytes is appended/stored and returned with a nil error")
+			default:
+				add("REC-WHOLE", s.key, pos, ob.Holds, "", "only whole records reach the result after the short read",
+					"windows of the buffer proven to lie within the delivered bytes: "+itoa(e.windows))
+			}
+		}
+		switch {
+		case e.overflow, len(e.badReturns) > 0:
 		default:
 			facts := []string{"exhausted outcome: " + exhaustedText(s)}
 			ok := sortedKeys(e.okFacts)
